@@ -50,7 +50,7 @@ def run(seed, ids):
     try:
         for pid in ids:
             rc, out = sh(f"./check {pid} quick", cwd="/verif")
-            results[pid] = {"rc": rc, "lines": [l for l in out.splitlines() if l.startswith(("VIOLATION", "KNOWN", "OK"))][:4]}
+            results[pid] = {"rc": rc, "lines": ([l for l in out.splitlines() if l.startswith("VIOLATION")] + [l[:160] for l in out.splitlines() if l.startswith(("KNOWN", "OK"))])[:6]}
     finally:
         sh("git -C /repo checkout -- .")
     print(json.dumps(results, indent=1))
